@@ -44,7 +44,9 @@ def handle (j : Json) : Json :=
   -- the fail-fast entry points (VisitJSON(FailFast()), IsMatching*): `(validate .failfast env s v).isOk`, which IS `visit env s v`
   -- by the kernel-checked `verdict_same_in_all_modes` (Props/C12.lean); the driver does not compute the event tree twice
   let ff := m
-  let sp := satB env s v
+  let envS := envSpecOf j
+  let sp := satB envS s v
+  let differs := hasGorx j && !env.patOff && s.pats.any patternTranslationDiffers
   let pre := (getArr j "pre").map (fun st => let e := { env with regex := regexOf st }; (visit e s v, satB e s v))
   let br := (kwBranches sj 0).eraseDups ++ [valKind v] ++ (if m then ["accept"] else ["reject"]) ++
     (if s.shortcut then ["shortcut"] else []) ++
@@ -52,10 +54,12 @@ def handle (j : Json) : Json :=
     (if env.roOff || env.woOff then ["ctx.switchoff"] else []) ++
     (if env.patOff then ["opt.patOff"] else []) ++
     (if pre.isEmpty then [] else ["history.compiler"]) ++
+    (if s.pats.any (fun p => intoGo p != p) then ["pattern.translated"] else []) ++
+    (if differs then ["pattern.translation.differs"] else []) ++
     (if (strLeaves v).any (fun x => !isAscii x) then ["v.nonascii"] else []) ++
     (if (getStr sj "pattern") != "" && !isAscii (getStr sj "pattern") then ["kw.pattern.nonascii"] else [])
   jobj [("model", jobj [("ok", Json.bool m), ("ff", Json.bool ff), ("pre", Json.arr (pre.map (fun r => Json.bool r.1)).toArray)]),
         ("spec", jobj [("sat", Json.bool sp), ("pre", Json.arr (pre.map (fun r => Json.bool r.2)).toArray)]),
-        ("excl", Json.arr #[]), ("branches", jstrs br)]
+        ("excl", jstrs (if differs then ["PatternTranslationDiffers"] else [])), ("branches", jstrs br)]
 
 end KinModel.Drv.C01
